@@ -327,7 +327,11 @@ def diff_trees(a, b, path=''):
     """Differences between two trees: list of (path of kinds down to the differing item, impl, model)."""
     if isinstance(a[1], str) or isinstance(b[1], str):
         if a != b:
-            return [(path + a[0], show(a), show(b))]
+            out = [(path + a[0], show(a), show(b))]
+            if a[0] == 't' and b[0] == 't' and isinstance(a[1], str) and isinstance(b[1], str) and len(a[1]) != len(b[1]):
+                # a text of another length: characters fabricated or lost, which is C14's business as well as C13's
+                out.append((path + 't#n', show(a), show(b)))
+            return out
         return []
     if a[0] != b[0]:
         return [(path + a[0], show(a), show(b))]
@@ -363,6 +367,8 @@ def attribute(path):
         return props
     if path.endswith('#f'):
         return {'C11', 'C10'}
+    if path.endswith('t#n'):
+        return {'C14'}
     if path.endswith('#<'):
         return {'C14', 'C04'} if 'v' in path else {'C07'}
     if path.endswith('#'):
